@@ -27,6 +27,23 @@ def fast():
     print("selftest --fast: z3", z3.get_version_string(), "cvc5 ok, /venv/bin/python ok")
 
 
+def _run_group(cmd, env, timeout):
+    """run in its own process group so that a timeout also removes the solver pool"""
+    import signal
+
+    proc = subprocess.Popen(cmd, stdout=subprocess.PIPE, stderr=subprocess.PIPE, text=True, env=env, start_new_session=True)
+    try:
+        out, err = proc.communicate(timeout=timeout)
+    except subprocess.TimeoutExpired:
+        try:
+            os.killpg(proc.pid, signal.SIGKILL)
+        except ProcessLookupError:
+            pass
+        proc.wait()
+        raise
+    return subprocess.CompletedProcess(cmd, proc.returncode, out, err)
+
+
 def run_mutants(pids, label_re=None):
     sys.path.insert(0, VERIF)
     bad = 0
@@ -53,7 +70,7 @@ def run_mutants(pids, label_re=None):
                 env = dict(os.environ, PYVC_REPO=dst, PYVC_NO_BOUNDED="1", PYVC_EVIDENCE_DIR=os.path.join(tmp, "ev"))
                 cmd = [os.path.join(VERIF, "check"), pid] + (["--only", only] if only else [])
                 try:
-                    out = subprocess.run(cmd, capture_output=True, text=True, env=env, timeout=3000)
+                    out = _run_group(cmd, env, 3000)
                 except subprocess.TimeoutExpired:
                     print(f"FAIL {pid} {label}: check did not finish within 3000 s")
                     bad += 1
